@@ -74,7 +74,7 @@ def run_main(args, timeout=20.0):
     return {"rc": rc, "out": out.getvalue(), "err": err.getvalue(), "exc": exc, "where": where}
 
 
-def run_subprocess(args, hashseed=None, timeout=120, cwd=None):
+def run_subprocess(args, hashseed=None, timeout=120, cwd=None, stdin=None):
     env = dict(os.environ)
     env["PYTHONPATH"] = REPO
     if hashseed is not None:
@@ -82,7 +82,7 @@ def run_subprocess(args, hashseed=None, timeout=120, cwd=None):
     env["PYTHONDONTWRITEBYTECODE"] = "1"
     try:
         p = subprocess.run([PY, "-m", "graphtage"] + list(args), stdout=subprocess.PIPE, stderr=subprocess.PIPE,
-                           env=env, timeout=timeout, cwd=cwd or "/")
+                           env=env, timeout=timeout, cwd=cwd or "/", input=stdin)
     except subprocess.TimeoutExpired:
         return {"rc": None, "out": b"", "err": b"", "exc": "Timeout"}
     tb = b"Traceback (most recent call last)" in p.stderr
